@@ -258,7 +258,7 @@ def run(pid, argv, *, module, theorems, gen, oracle, rule, nontrivial, extra_tar
                    "harness/reactive-driver (interpreter of the scenario language over the real API, canonical printer)",
                    "verif hook module of sycamore-reactive (read-only snapshot)",
                    "tools/reactive*.py, tools/rcheck.py (generators, comparer, oracles)",
-                   "modelled, not verified: slotmap (fresh ids for versioned keys), RefCell dynamic borrows, Box<dyn Any> downcasts"] + list(trusted)
+                   "modelled, not verified: RefCell dynamic borrows, Box<dyn Any> downcasts; slotmap: Interp.v uses fresh ids, the versioned keys themselves are modelled in Reactive/Arena.v (theorems Props/C04a.v: they behave as a fresh supply) and compared with the real arena by harness/arena-driver in C04"] + list(trusted)
     chk.assumptions = list(assumptions)
     chk.rule = rule
     broken = []
